@@ -52,7 +52,8 @@ LEVEL = {'text': 'Machine-checked refinement of a state machine (caches, object 
                  '(offset-exact lookups name a unit/entry start). What the bytes decode to is abstract (parse '
                  'functions of the file description); decoding itself is the subject of C04/C05/C06.'}
 RULE = ('cases: (file, history, last operation); bfs = every abstract state reachable within the depth bound x every '
-        'operation of the alphabet on 3 synthesized files (five alphabets: DWARF, ELF, call-frame decoding in every order '
+        'operation of the alphabet on 3 synthesized files (six alphabets: DWARF, ELF, walking the children of an offset-fetched entry then asking for the parent of '
+        'the entry after its subtree (two levels deeper), call-frame decoding in every order '
         '(two levels deeper), interleaved iterators over the children of one entry (five levels deeper), and a type-unit generator '
         'interleaved with lookups by signature (two levels deeper)); pair = every interleaving up to depth 3 of '
         'queries on TWO files opened in one process (file A and its big-endian twin), each history in a process of '
@@ -377,6 +378,24 @@ class Opened:
     _DIE_ATTRS = frozenset(('attributes',))
     _CU_ATTRS = frozenset(('_dielist', '_diemap', 'header'))
 
+    @classmethod
+    def _file_table_len(cls, x, depth=0):
+        """length of a file table reachable from an unknown cache value (so that states with tables of different
+        length stay apart in the exploration)"""
+        try:
+            return len(x['file_entry'])
+        except Exception:
+            pass
+        if depth < 3:
+            if hasattr(x, 'header'):
+                return cls._file_table_len(x.header, depth + 1)
+            if isinstance(x, (tuple, list)):
+                for y in x:
+                    n = cls._file_table_len(y, depth + 1)
+                    if n is not None:
+                        return n
+        return None
+
     def abs_state(self):
         dw, elf = self.dw, self.elf
         if dw is not None:
@@ -388,8 +407,13 @@ class Opened:
                                + self.hidden(d, self._DIE_ATTRS) for d in cu._dielist]]
                              + self.hidden(cu, self._CU_ATTRS))
             abbrevs = list(dw._abbrevtable_cache.keys())
-            lines = [[off, len(lp.header['file_entry']), int(lp._decoded_entries is not None)]
-                     for off, lp in dw._linetable_cache.items()]
+            def lp_state(off, lp):
+                # a cache entry that is not a LineProgram object (a changed library) is opaque: never a crash
+                try:
+                    return [off, len(lp.header['file_entry']), int(lp._decoded_entries is not None)]
+                except (AttributeError, KeyError, TypeError, IndexError):
+                    return [off, 'opaque', type(lp).__name__, self._file_table_len(lp)]
+            lines = [lp_state(off, lp) for off, lp in dw._linetable_cache.items()]
         else:
             keys, units, abbrevs, lines = [], [], [], []
         m = elf._section_name_map if elf is not None else None
@@ -913,6 +937,23 @@ def alphabet(meta, machine):
         sigs = meta['tu_sigs']
         ops += [['NewIterTUs', 0], ['Next', 0], ['TUBySig', sigs[0]], ['TUBySig', sigs[-1]], ['TUBySig', 0x1234],
                 ['Disturb', 12, 3], ['CUAt', meta['units'][-1]['off']]]
+    elif machine == 'DQ':
+        # an entry Q with children that is followed by a sibling R: walking Q's children to the end caches the null
+        # entry that closes them, which is adjacent to R; then R's parent is asked for
+        u = meta['units'][0]
+        found = []
+        def walk(n):
+            off, raw, kids, toff, traw = n
+            for a, b in zip(kids, kids[1:]):
+                if a[2]:
+                    found.append((len(a[2]), a, b))
+            for k in kids:
+                walk(k)
+        walk(u['tree'])
+        if found:
+            _, Q, R = min(found, key=lambda x: (x[0], x[1][0]))
+            ops += [['NewIterChildren', 0, u['off'], Q[0]], ['Next', 0], ['Parent', u['off'], R[0]], ['DIEAt', u['off'], R[0]],
+                    ['DIEAt', u['off'], Q[0]], ['Parent', u['off'], Q[2][0][0]], ['NewIterSiblings', 0, u['off'], R[0]]]
     elif machine == 'DF':
         # call-frame information only: fetching the entry list and decoding its entries in every order
         ops += [['CFI', 0], ['Disturb', 4, 5]]
@@ -1196,14 +1237,18 @@ def gen(ctx):
         if meta.get('broken'):
             cases.append(('tab', [name, []]))
             continue
-        for machine in ('D', 'E', 'DF', 'DN', 'DT'):
+        for machine in ('D', 'E', 'DF', 'DN', 'DT', 'DQ'):
             if machine == 'DT' and len(meta.get('tu_sigs', [])) < 2:
                 continue
-            d = {'DF': depth + 2, 'DN': depth + 5, 'DT': depth + 2}.get(machine, depth)
+            d = {'DF': depth + 2, 'DN': depth + 5, 'DT': depth + 2, 'DQ': depth + 2}.get(machine, depth)
+            if not alphabet(meta, machine):
+                continue
             edges, nstates, closed = explore(meta, machine, d)
             while len(edges) > budget and d > 1:      # never silently: the bound actually used is in the evidence
                 d -= 1
                 edges, nstates, closed = explore(meta, machine, d)
+            if not alphabet(meta, machine):
+                continue
             stats['%s/%s' % (name, machine)] = dict(depth=d, states=nstates, edges=len(edges), closed=closed,
                                                     alphabet=len(alphabet(meta, machine)))
             for h, a, st in edges:
